@@ -506,7 +506,15 @@ def _exec_op(ctx, op, T, S, model):
             _do(ctx, "tensor.__setitem__", "dense", lambda: T.__setitem__(key, dr))
             sr = gen.mk_sptensor(ttb, V)
             _do(ctx, "sptensor.__setitem__", "sparse", lambda: S.__setitem__(key, sr))
+            _cmp_state(ctx, "__setitem__", T, S, model)
+            # the same right-hand-side objects are used again for the same region: the state must not move
+            # (a right-hand side corrupted by the first assignment would land somewhere else)
+            if ctx.nviol == 0 or True:
+                _do(ctx, "tensor.__setitem__", "dense", lambda: T.__setitem__(key, dr))
+                _do(ctx, "sptensor.__setitem__", "sparse", lambda: S.__setitem__(key, sr))
+                ctx.feat(reused_rhs=True)
         _cmp_state(ctx, "__setitem__", T, S, model)
+        ctx.feat(reused_rhs=None)
     elif k == "set_subs":
         subs = np.array(op["subs"], dtype=int)
         vals = op["vals"]
